@@ -224,11 +224,11 @@ def bnode_case(method, fmt):
 T = {"t1": (URIRef(EX + "a"), URIRef(EX + "p"), URIRef(EX + "b")), "t2": (URIRef(EX + "a"), URIRef(EX + "q"), Literal("")),
      "t3": (URIRef(EX + "b"), URIRef(EX + "p"), Literal("x\ty"))}
 PAT = {"S": (URIRef(EX + "a"), None, None), "O": (None, None, Literal("")), "P": (None, URIRef(EX + "p"), None), "ALL": (None, None, None),
-       "SP": (URIRef(EX + "a"), URIRef(EX + "p"), None), "PO": (None, URIRef(EX + "q"), Literal("")), "SO": (URIRef(EX + "a"), None, URIRef(EX + "b"))}
+       "SP": (URIRef(EX + "a"), URIRef(EX + "p"), None), "PO": (None, URIRef(EX + "q"), Literal("")), "SO": (URIRef(EX + "a"), None, URIRef(EX + "b")), "SO2": (URIRef(EX + "a"), None, Literal(""))}
 
 GRAPH_OPS = ([["add", t] for t in T] + [["remove", t] for t in ("t1", "t2")] + [["removew", p] for p in ("S", "O", "ALL")] + [["addN"]] +
-             [["commit"], ["rollback"], ["update"]] +
-             [["read", p] for p in PAT] + [["read-exact", "t2"], ["len"], ["contains", "t1"], ["query"]])
+             [["commit"], ["rollback"], ["update"], ["update-bindings"]] +
+             [["read", p] for p in PAT] + [["read-exact", "t2"], ["len"], ["contains", "t1"], ["query"], ["query-bindings"]])
 DATASET_OPS = ([["addNq"], ["addq", "t1", "g1"], ["addq", "t1", "g2"], ["addq", "t2", "g2"], ["removeq", "t1", "g1"], ["removeq", "t1", None], ["removeqw", "ALL", "g2"],
                 ["remove_graph", "g1"], ["commit"], ["rollback"], ["contexts"], ["quads"], ["readq", "g2"]])
 
@@ -319,13 +319,17 @@ def run_history(client, cfg, ops, horizon=30.0):
                 elif k == "update":
                     g.update("INSERT DATA { <%sb> <%sp> \"x\\ty\" }" % (EX, EX))
                     model.write(("add", "t3", "g1"))
+                elif k == "update-bindings":
+                    # two initial bindings, handed over in an order that is not the alphabetical one of their names
+                    g.update("DELETE { ?s ?p ?o } WHERE { ?s ?p ?o }", initBindings={"s": T["t2"][0], "o": T["t2"][2]})
+                    model.write(("removew", PAT["SO2"], "g1"))
                 elif k == "commit":
                     g.commit()
                     model.commit()
                 elif k == "rollback":
                     g.rollback()
                     model.rollback()
-                elif k in ("read", "read-exact", "len", "contains", "query"):
+                elif k in ("read", "read-exact", "len", "contains", "query", "query-bindings"):
                     model.before_read()
                     here = {q[0] for q in model.committed if q[1] == "g1"}
                     if k == "read":
@@ -338,6 +342,9 @@ def run_history(client, cfg, ops, horizon=30.0):
                         got, exp = len(g), len(here)
                     elif k == "contains":
                         got, exp = (T[op[1]] in g), (op[1] in here)
+                    elif k == "query-bindings":
+                        got = sorted(tk3(r) for r in g.query("SELECT ?s ?p ?o WHERE { ?s ?p ?o }", initBindings={"s": T["t1"][0], "p": T["t1"][1]}))
+                        exp = sorted(tk3(T[t]) for t in here if matches(PAT["SP"], T[t]))
                     else:
                         got = sorted(tk3(r) for r in g.query("SELECT ?s ?p ?o WHERE { ?s ?p ?o }"))
                         exp = sorted(tk3(T[t]) for t in here)
